@@ -20,7 +20,7 @@ RULE = ("histories over {place(content form, value), rest(value), bar + content,
         "histories of up to 60 steps, (d) meter acceptance over beat units/counts. The bar is compared with an exact Fraction "
         "model after every step. Non-trivial: a history that reaches exact capacity, contains a refusal, or places after a "
         "remove-last; a fill with > 1 part; a meter with a non-integer or non-power-of-two unit."
-        " Also: constructed overflows by 1-5 vocabulary quanta; 'beat closer' histories (tuplet-heavy prefix, values placed until exactly one or two beats are left, then '+'); 'churn' histories (place-and-remove cycles on tuplet beats, then an exact refill); emptying the same Bar and giving it a new meter; place_notes_at with the beat written as an int, including whole-number beats where no entry starts; every ordered pair of meters applied one after the other to one Bar object (fresh, or used and emptied) followed by '+' and an exact close; empty lists and empty containers as content.")
+        " Also: constructed overflows by 1-5 vocabulary quanta; 'beat closer' histories (tuplet-heavy prefix, values placed until exactly one or two beats are left, then '+'); 'churn' histories (place-and-remove cycles on tuplet beats, then an exact refill); emptying the same Bar and giving it a new meter; place_notes_at with the beat written as an int, including whole-number beats where no entry starts; every ordered pair of meters applied one after the other to one Bar object (fresh, or used and emptied) followed by '+' and an exact close; empty lists and empty containers as content; bars filled to within 1/1344 of their length (full by the stated tolerance), then remove-last and exact refills.")
 ASSUMPTIONS = ["note values handed to mingus are ints when integral, else the correctly rounded float of the vocabulary rational",
                "a refused meter is any raised exception with the bar unchanged (statement does not name the error)",
                "float clauses compared with |.| <= 1e-9; vocabulary quantum is 1/215040 ~ 4.7e-6"]
@@ -390,7 +390,34 @@ def near_boundary_cases():
     return cases
 
 
+def nearly_full_cases():
+    """bars that are 'full' only to within the stated thousandth (1/1344 of a whole note is still free: a triplet 128th's room
+    taken by a septuplet 128th), then remove-last and exact refills: the time accounting stays exact through that state"""
+    c4 = [["C", 4]]
+    t192, t224, t160 = [128, 0, 3, 2], [128, 0, 7, 4], [128, 0, 5, 4]
+    cases = []
+    for meter in ([4, 4], [3, 4], [2, 4], [6, 8], [5, 4], [2, 2], [7, 8], [12, 8]):
+        x = Fr(meter[0], meter[1]) - Fr(1, 64)  # two triplet 128ths + x + one more triplet 128th = the whole bar
+        vals, j = [], 1
+        while x > 0 and j <= 64:
+            if Fr(1, j) <= x:
+                vals.append([j, 0, 1, 1])
+                x -= Fr(1, j)
+            else:
+                j *= 2
+        assert x == 0
+        pre = [["place", "str", c4, t192], ["place", "note", c4, t192]] + [["place", "str", c4, v] for v in vals]
+        for tail in ([["place", "str", c4, t224], ["rm"], ["place", "str", c4, t192], ["rm"], ["place", "str", c4, t160], ["rest", t224], ["rm"], ["rest", t192]],
+                     [["rest", t224], ["rm"], ["rm"], ["place", "str", c4, vals[-1]], ["place", "str", c4, t224], ["rm"], ["plus", "str", c4], ["fill", "str", c4, False]],
+                     [["place", "str", c4, t224], ["place", "str", c4, [128, 0, 1, 1]], ["rm"], ["rm"], ["rest", t224], ["rm"], ["place", "note", c4, t192]]):
+            cases.append({"meter": meter, "ops": pre + tail})
+    return cases
+
+
 def sub_near_boundary(ctx, shard, n):
+    nf = nearly_full_cases()
+    ctx.exhaustive("nearly full bars (1/1344 free), remove-last, exact refill", "8 meters x 3 continuations", len(nf))
+    ctx.enumerate("history", check_history, nf, size_key=lambda c: len(c["ops"]))
     cases = near_boundary_cases()
     ctx.exhaustive("near-boundary overflows by 1,2,3,5 quanta", "8 meters x 4 overshoots", len(cases))
     ctx.enumerate("history", check_history, cases, size_key=lambda c: len(c["ops"]))
